@@ -60,3 +60,20 @@ Theorem C03_finished_file_timing_is_exact : forall b m0 ops m rs s,
   check_C03 b ops (map class_of rs) (sink_of m) = true.
 Proof. exact finished_file_timing_is_exact. Qed.
 Print Assumptions C03_finished_file_timing_is_exact.
+
+From Coq Require Export ZArith Reals Floats.SpecFloat.
+From Flocq Require Export Core.Core IEEE754.BinarySingleNaN.
+From Muxide Require Export Model.F64 Proofs.F64Accuracy.
+(* "rounded to the 90 kHz media clock": the tick the model (and the crate) computes for a submitted
+   binary64 time x is the real product x * 90000 rounded to binary64 and then to the nearest integer; it is
+   within 1/2 + 2^-53 * (x * 90000) of the real product, for every finite non-negative x below 2^63 ticks
+   (Flocq; depends on the standard library's classical real-number axioms, allowlisted for this theorem) *)
+Theorem C03_tick_is_the_rounded_real_product : forall x : f64,
+  valid_binary prec emax x = true -> is_finite x = true ->
+  (0 <= SF2R radix2 x)%R -> (SF2R radix2 x * 90000 <= IZR (2 ^ 63))%R ->
+  let y := (SF2R radix2 x * 90000)%R in
+  (Rabs (IZR (Z.of_N (tick x)) - RN64 y) <= /2)%R /\
+  (Rabs (RN64 y - y) <= / IZR (2 ^ 53) * y)%R /\
+  (Rabs (IZR (Z.of_N (tick x)) - y) <= /2 + / IZR (2 ^ 53) * y)%R.
+Proof. exact tick_accuracy. Qed.
+Print Assumptions C03_tick_is_the_rounded_real_product.
